@@ -21,4 +21,6 @@ C02_ReplicasFollowRow    == IsFinal /\ R.tree.master \in HA => C02_ReplicasFollo
 C02_NoAckedLossRow       == IsFinal /\ R.tree.master \in HA => C02_NoAckedLoss(H, R.tree.master, ToSet(R.acked))
 \* while the fault lasts no second node acknowledges (observation: ack log retirements)
 C02_SingleAckerRow       == IsFinal => R.ackviol = ""
+\* the cluster returned to a master that is an HA node at all
+C02_MasterRecordedRow    == IsFinal => R.tree.master \in HA
 =============================================================================
